@@ -142,6 +142,23 @@ def many_bits_pair(draw):
 
 
 @st.composite
+def typo_mask_pair(draw):
+    """top = a wildcard whose mask is the highest k bits (a subnet mask typed where a wildcard belongs: 224.0.0.0
+    240.0.0.0), with all lower address bits zero or not; bottom = an address of the usual pool, which such a top
+    contains only if the lower 32-k bits agree."""
+    k = draw(st.integers(1, 7))
+    w = ((1 << k) - 1) << (32 - k)
+    low = draw(st.sampled_from([0, 0, 0, 1, 0x000A0000]))
+    base = (draw(st.integers(0, R.ALL1)) & w) | low
+    top = {"k": "wild", "b": base & ~w & R.ALL1, "w": w}
+    bb = draw(st.one_of(G.base_st(), st.sampled_from([low, low | (1 << 31), 0x0A000000, 0x0A000000 | low])))
+    plen = draw(st.sampled_from([32, 32, 24, 8, 4]))
+    bw = (1 << (32 - plen)) - 1
+    bottom = {"k": "host", "b": bb, "w": 0} if bw == 0 else {"k": "prefix", "b": bb & ~bw & R.ALL1, "w": bw}
+    return top, bottom
+
+
+@st.composite
 def addr_pair_st(draw, tier):
     mode = draw(st.sampled_from(range(10)))
     if mode < 2:
@@ -149,6 +166,9 @@ def addr_pair_st(draw, tier):
         return {"a": a, "b": b, "pa": draw(st.sampled_from(["ios", "nxos"])), "pb": draw(st.sampled_from(["ios", "nxos"]))}
     if mode == 2:
         a, b = draw(adjacent_run_group())
+        return {"a": a, "b": b, "pa": draw(st.sampled_from(["ios", "nxos"])), "pb": draw(st.sampled_from(["ios", "nxos"]))}
+    if mode == 4 and draw(st.booleans()):
+        a, b = draw(typo_mask_pair())
         return {"a": a, "b": b, "pa": draw(st.sampled_from(["ios", "nxos"])), "pb": draw(st.sampled_from(["ios", "nxos"]))}
     if mode == 3:
         a, b = draw(many_bits_pair())
